@@ -12,6 +12,7 @@ import typing
 
 from simkit import dsdlgen, nnvg, proc, snapshot, usertpl
 from simkit.rng import Rng
+from simkit.seams import is_mutating
 
 PROP = "C08"
 LEVEL = "exploration"
@@ -150,7 +151,7 @@ def _mutations(res: dict) -> typing.List[list]:
         kind, rel = e[1], e[2]
         if rel is None or not str(rel).startswith("@"):
             continue
-        if kind == "open-w" or kind in ("eacces",) or kind.startswith(("os.mk", "os.ch", "os.re", "os.rm", "os.tr", "os.ut", "os.li", "os.sy", "shutil.", "tempfile.")):
+        if is_mutating(kind) or kind == "eacces":
             out.append([kind, rel])
     return out
 
